@@ -180,7 +180,7 @@ func TestVf_C16(t *testing.T) {
 		wg.Add(1)
 		go func(wk int) {
 			defer wg.Done()
-			for c := wk; c < n; c += workers {
+			for c := wk; c < n && !run.Enough(); c += workers {
 				r := rand.New(rand.NewSource(vfkit.Seed()*2750159 + int64(c)))
 				cs := &vfC16Case{Reply: vfC16Replies[r.Intn(len(vfC16Replies))]}
 				switch r.Intn(6) {
